@@ -124,11 +124,17 @@ func (ii *InsertionIndex) Marshal(w io.Writer) (uint64, error) {
 	l += 8
 
 	var err error
+	var buf bytes.Buffer
 	iter := func(i llrb.Item) bool {
-		if err = cbor.Encode(w, i.(recordDigest).Record); err != nil {
+		// Encode into a buffer first, so that the bytes handed to w can be counted.
+		buf.Reset()
+		if err = cbor.Encode(&buf, i.(recordDigest).Record); err != nil {
 			return false
 		}
-		return true
+		var n int
+		n, err = w.Write(buf.Bytes())
+		l += uint64(n)
+		return err == nil
 	}
 	ii.items.AscendGreaterOrEqual(ii.items.Min(), iter)
 	return l, err
